@@ -160,12 +160,17 @@ class Ctx:
         return sh(['lake'] + args, cwd=self.lean_dir, timeout=timeout)
 
     def build_driver(self):
-        rc, o, e = self.lake(['build', 'driver'])
+        name = 'drv_' + self.prop.lower()
+        if getattr(self, '_driver', None):
+            return self._driver, ''
+        rc, o, e = self.lake(['build', name])
         if rc != 0:
             return None, (o + e)
-        return os.path.join(self.lean_dir, '.lake/build/bin/driver'), ''
+        self._driver = os.path.join(self.lean_dir, '.lake/build/bin', name)
+        return self._driver, ''
 
     def driver(self, sub, input_text, timeout=600, args=()):
+        """run the property's Lean driver executable (lean/ChibiVerif/Driver/<Cxx>Main.lean) on input_text"""
         exe, err = self.build_driver()
         if exe is None:
             raise ModelBuildFailure(err)
